@@ -333,6 +333,55 @@ Proof.
   destruct (CountVectorizerValidParams_split_regex_expr_compiles p); refl_tac.
 Qed.
 
+(** * The known-finding regions of Spec.v ([g_known]) over the reals *)
+Section K.
+Variable prec emax : Z.
+Notation wf := (wf prec emax).
+Notation fmt_ok := (fmt_ok prec emax).
+Variable fm : fmt.
+Hypothesis Hfm : fmt_ok fm.
+
+Lemma known_DecisionTree p : wf (DecisionTreeValidParams_min_impurity_decrease p) ->
+  g_known (spec_DecisionTreeParams fm p) = 0%N <->
+  ~ (0 < val (DecisionTreeValidParams_min_impurity_decrease p) < val (f_eps fm)).
+Proof.
+  intros H. unfold spec_DecisionTreeParams. cbn [g_known]. toR.
+  destruct (Rlt_bool_spec 0 (val (DecisionTreeValidParams_min_impurity_decrease p)));
+  destruct (Rlt_bool_spec (val (DecisionTreeValidParams_min_impurity_decrease p)) (val (f_eps fm)));
+  cbn; unfold K_F21; (split; [intro; try lra; try discriminate | intro C; try reflexivity; exfalso; apply C; lra]).
+Qed.
+
+Lemma known_ElasticNet p :
+  g_known (spec_ElasticNetParamsBase fm p) = 0%N <-> ElasticNetValidParamsBase_max_iterations p <> 0%N.
+Proof.
+  unfold spec_ElasticNetParamsBase. cbn [g_known].
+  destruct (N.eqb_spec (ElasticNetValidParamsBase_max_iterations p) 0); unfold K_ENIT; split; intro; try congruence; try discriminate; try reflexivity.
+Qed.
+
+Lemma known_Svm p : wf_pair_opt prec emax (SvmValidParams_nu p) ->
+  g_known (spec_SvmParams fm p) = 0%N <->
+  match SvmValidParams_nu p with Some (n, _) => val n <> 0 | None => True end.
+Proof.
+  intros H. unfold spec_SvmParams. cbn [g_known].
+  destruct (SvmValidParams_nu p) as [[n m]|]; [|tauto]. destruct H as [H _].
+  pose proof (is_zero_R prec emax n H) as Z. destruct (is_zero n); unfold K_NU0.
+  - split; [discriminate|]. intros C. exfalso. apply C. apply Z. reflexivity.
+  - split; [|reflexivity]. intros _ C. apply Z in C. discriminate.
+Qed.
+End K.
+
+Lemma known_CountVectorizer fm p :
+  wf 24 128 (snd (CountVectorizerValidParams_document_frequency p)) ->
+  g_known (spec_CountVectorizerParams fm p) = 0%N <-> val (snd (CountVectorizerValidParams_document_frequency p)) <= 1.
+Proof.
+  intros H. pose proof fmt32_ok as Hfm. unfold spec_CountVectorizerParams.
+  destruct (CountVectorizerValidParams_n_gram_range p) as [n1 n2].
+  destruct (CountVectorizerValidParams_document_frequency p) as [f1 f2]. cbn [snd g_known] in *.
+  change one32 with (f_one fmt32). rewrite (flt_R 24 128) by wfs.
+  rewrite (proj1 (proj2 Hfm)).
+  destruct (Rlt_bool_spec 1 (val f2)); unfold K_CVF; split; intro; try lra; try discriminate; reflexivity.
+Qed.
+
 (** ------------------------------------------------------------------------------------------ *)
 (** * Witnesses: the known findings, by computation on the translated guards (binary64) *)
 Open Scope string_scope.
@@ -416,14 +465,14 @@ Proof.
   split; [split; reflexivity|]. split; [apply val_pos_finite | vm_compute; discriminate].
 Qed.
 
-Lemma refuted_F25 : exists p,
+Lemma refuted_F42 : exists p,
   ElasticNetValidParamsBase_max_iterations p = 0%N /\ check_ref_ElasticNetParamsBase fmt64 p = None.
 Proof.
   exists (of_env_ElasticNetValidParamsBase [("penalty", VF one64); ("l1_ratio", VF d_half); ("max_iterations", VN 0); ("tolerance", VF d_1em4)]).
   split; reflexivity.
 Qed.
 
-Lemma refuted_F26 :
+Lemma refuted_F43 :
   check_ref_SvmParams fmt64 (wit_Svm d_1em7 (Some (fzero, fzero))) <> None
   /\ check_ref_SvmParams fmt64 (wit_Svm d_1em7 (Some (d_half, fzero))) = None.
 Proof. split; vm_compute; [discriminate | reflexivity]. Qed.
@@ -431,7 +480,7 @@ Proof. split; vm_compute; [discriminate | reflexivity]. Qed.
 Lemma val_s_2 : val s_2 = 2.
 Proof. unfold val, s_2, SF2R, F2R; simpl; lra. Qed.
 
-Lemma refuted_F27 : exists p,
+Lemma refuted_F44 : exists p,
   wf 24 128 (snd (CountVectorizerValidParams_document_frequency p))
   /\ 1 < val (snd (CountVectorizerValidParams_document_frequency p))
   /\ check_ref_CountVectorizerParams fmt32 p = None.
@@ -483,5 +532,5 @@ Example default_parameter_sets_are_in_range_and_accepted :
 Proof. split; vm_compute; reflexivity. Qed.
 
 (* and the list above names every builder the translator found *)
-Example default_list_is_complete : length guard_builders = 21%nat.
+Example default_list_is_complete : List.length guard_builders = 21%nat.
 Proof. reflexivity. Qed.
